@@ -666,11 +666,11 @@ def classify_indices(case):
 
 
 SUBCHECKS = [
-    Subcheck("randsphere", box_cases, check_randsphere, classify_box, quick=1200, thorough=40000, journal=False),
-    Subcheck("randcap", cap_cases, check_randcap, classify_cap, quick=3000, thorough=80000, journal=False),
-    Subcheck("randcap_stub", cap_stub_cases, check_randcap_stub, classify_cap, quick=1000, thorough=30000,
+    Subcheck("randsphere", box_cases, check_randsphere, classify_box, quick=3600, thorough=40000, journal=False),
+    Subcheck("randcap", cap_cases, check_randcap, classify_cap, quick=9000, thorough=80000, journal=False),
+    Subcheck("randcap_stub", cap_stub_cases, check_randcap_stub, classify_cap, quick=3000, thorough=30000,
              journal=False),
-    Subcheck("generator", gen_cases, check_generator, classify_gen, quick=2000, thorough=60000, journal=False),
-    Subcheck("cholesky", chol_cases, check_cholesky, classify_chol, quick=800, thorough=30000, journal=False),
-    Subcheck("indices", index_cases, check_indices, classify_indices, quick=800, thorough=30000, journal=False),
+    Subcheck("generator", gen_cases, check_generator, classify_gen, quick=6000, thorough=60000, journal=False),
+    Subcheck("cholesky", chol_cases, check_cholesky, classify_chol, quick=2400, thorough=30000, journal=False),
+    Subcheck("indices", index_cases, check_indices, classify_indices, quick=2400, thorough=30000, journal=False),
 ]
